@@ -1313,6 +1313,8 @@ fn c08(ix: &Ix, f: &mut Findings) {
             .map(|o| &ix.ops[o])
             .filter(|o| o.accepted_tell())
             .map(|o| (o.end.as_ref().unwrap().0, ix.henter.get(&o.uid).map(|h| h[0]), o.uid))
+            // ... and asks that certainly entered the mailbox when they were sent (whether or not their caller is still waiting)
+            .chain(x.msgs.iter().map(|o| &ix.ops[o]).filter(|o| o.kind.ask_family() && ix.certainly_accepted(o)).map(|o| (o.s, ix.henter.get(&o.uid).map(|h| h[0]), o.uid)))
             .collect();
         let c = x.c().unwrap_or(usize::MAX);
         let first_poll_of: BTreeMap<u32, usize> = {
